@@ -20,7 +20,7 @@ Extraction "extract/model.ml"
   Machines.bf_machine_run Machines.ir_machine_run Machines.bf_step Machines.cfg_equiv Machines.cert_ok Machines.bf_cfg_after
   Tape.t_run Tape.rust_policy Tape.rtape0 Tape.s_run Tape.spec0 Tape.all_match Tape.ops_small
   SmallVec.sv_run SmallVec.sstate0 SmallVec.sv_final
-  BCWf.bc_wf BCWf.bc_wf_why
+  BCWf.bc_wf BCWf.bc_wf_why BCWf.live_regs_ok
   BCRaw.r_run BCRaw.r_spec BCRaw.rops_ok
   X86.form_ok X86.srun X86.sst0 X86.form_spec X86.same_poly
   X86Call.call_ok X86Call.yrun X86Call.ksym0 X86Call.br_ok
